@@ -297,7 +297,8 @@ Definition on_write (m : mst) (origin : Z) (o : sop) (acked : bool) (s s' : stor
       (* traces: every message traced so far is in the stored log once the task settles *)
       let m := if Z.eqb origin 0 && zin st [sSuccess; sFailed; sCanceled] then
                  match find_task s' id with
-                 | Some r => if subset (aget [] (m_traced m) id) (t_traces r) then m else add_viol m 18 2 id
+                 | Some r => if subset (aget [] (m_traced m) id) (t_traces r) then m
+                             else add_viol m 18 (if Z.eqb (fget m 20 id) 1 then 12 else 2) id
                  | None => m
                  end
                else m in
@@ -502,7 +503,9 @@ Definition mstep0 (m : mst) (ev : sx) : mst :=
                            fset (if (Z.eqb st sFailed || Z.eqb st sCanceled) && negb (Z.eqb rs 0) then m
                                  else add_viol m 3 50 id) 5 id 0
                          else m in
-                match tr with [] => m | _ => fset m 10 id 1 end
+                (* the run's terminal write itself failed: the run did not settle, its in-memory traces die with it *)
+                let m := if zin st [sSuccess; sFailed; sCanceled] then set_traced m (aset (m_traced m) id []) else m in
+                match tr with [] => m | _ => fset (if Z.eqb st 0 then fset m 20 id 1 else m) 10 id 1 end
             | OPatchIns id (Some _) _ _ _ _ _ _ => fset (fset m 6 id 1) 9 id 1
             | _ => m
             end
@@ -618,7 +621,8 @@ Definition mstep0 (m : mst) (ev : sx) : mst :=
       else m
   | L [I 20] =>
       (* buffered traces of runs that die in the crash are lost by design: forget them *)
-      let m := set_traced m (filter (fun p => negb (existsb (fun a => Z.eqb (fst a) (fst p)) (m_alive m))) (m_traced m)) in
+      let m := set_traced m (filter (fun p => negb (existsb (fun a => Z.eqb (fst a) (fst p)) (m_alive m))
+                                          && Z.eqb (fget m 19 (fst p)) 0) (m_traced m)) in
       fclear_kind (set_closed (set_alive (set_crashed m true) []) false) 5
   | L [I 22; I d] => set_store m (age (m_store m) d)
   | L [I 23] => check_quiescent m
